@@ -194,6 +194,15 @@ def run_properties(props, args, seed, scratch, manifest):
                 total -= 1
                 covers_undecided.append(name)
                 continue
+            if o.get("cover") and any((x["name"] != name and x.get("fn") == o.get("fn") and not x.get("cover") and (
+                    exception_for(x["name"], exceptions) is not None or
+                    (x["backend"] == "smt" and x["name"] in results and results[x["name"]]["answer"] != "unsat") or
+                    (x["backend"] == "static" and x.get("static") != "ok"))) for x in obls):
+                # the path is cut off by an obligation of the same function that is not discharged
+                # (its goal is assumed afterwards): that obligation is the finding, not this cover
+                total -= 1
+                covers_undecided.append(name)
+                continue
             if o.get("cover"):
                 # vacuity: a precondition / path that must be satisfiable is not
                 viol.append((o, r, "vacuity guard failed (%s): contract contradictory or path unreachable" % r["answer"]))
